@@ -78,3 +78,14 @@ for cls, flds in CLASSES.items():
 # (contracts/c06.py: fresh result of the same class, no existing graph / composite / relation touched)
 for cls in CLASSES:
     refines(f"{cls}.copy", "ICircuitOperation.copy", props=P)
+
+# ---------------------------------------------------------------- acquisition strategy: the registry is re-targeted through the lookup
+REFC = "self.registry.reference_circuit"
+contract("RegistryAcquisitionStrategy.copy", params=dict(self=REF("RegistryAcquisitionStrategy"), strategy_transfer_lookup=LOOKUP),
+         returns=REF("IAcquisitionStrategy"), fresh_result=True, props=P + ["C07"], modifies=["dict"],
+         ensures=["typeis(result, RegistryAcquisitionStrategy)", "fresh(result)",
+                  "let(result, lambda r: typeis(r, RegistryAcquisitionStrategy) and fresh(r.registry) and r.registry is not self.registry and "
+                  # the copy's registry counts in the circuit the lookup maps the old reference circuit to (or in the same circuit if it is not a key)
+                  f"r.registry.reference_circuit is (dict_get(strategy_transfer_lookup, {REFC}) "
+                  f"if strategy_transfer_lookup is not None and dict_has(strategy_transfer_lookup, {REFC}) else {REFC}))"])
+refines("RegistryAcquisitionStrategy.copy", "IAcquisitionStrategy.copy", props=P)
